@@ -62,7 +62,17 @@ def reader_inputs(tier, rng):
     if tier == "quick":
         rng.shuffle(res)
         res = res[:40] + res[-4:]
-    return res
+    return res + BOUNDARY
+
+
+# streams on which a fault can fall where nothing else does: inside a UTF-16/32 code unit of a re-encoded YAML stream, and
+# between an explicit document end marker and the next document (the chunker then holds a finished document); these get
+# every offset and every fault kind in both tiers
+_Y = "k: \u00e9\n---\n- \U0001f600\n"
+BOUNDARY = [("yaml", b"\xff\xfe" + _Y.encode("utf-16-le")), ("yaml", b"\xfe\xff" + _Y.encode("utf-16-be")), ("yaml", _Y.encode("utf-16-le")),
+            ("yaml", b"\xff\xfe\x00\x00" + _Y.encode("utf-32-le")), ("yaml", _Y.encode("utf-32-be")),
+            ("yaml", b"a: 1\n...\n\n# gap\n\n---\nb: 2\n...\n# tail\n---\nc: 3\n"), ("yaml", b"- x\n...\n- y\n...\n"),
+            ("yaml", b"--- 1\n...\n%YAML 1.1\n---\n2\n")]
 
 
 def run_reader_faults(outcome, tier, seed):
@@ -79,9 +89,10 @@ def run_reader_faults(outcome, tier, seed):
     reqs, meta = [], []
     for (fmt, data, frm, to), fr in zip(plans, free):
         base = shared.session_result(fr)
-        ks = range(len(data) + 1) if (tier == "thorough" or len(data) <= 40) else sorted(rng.sample(range(len(data) + 1), 40))
+        boundary = (fmt, data) in BOUNDARY
+        ks = range(len(data) + 1) if (tier == "thorough" or len(data) <= 40 or boundary) else sorted(rng.sample(range(len(data) + 1), 40))
         for k in ks:
-            kind = KINDS[(k + len(reqs)) % 4] if tier == "quick" else None
+            kind = KINDS[(k + len(reqs)) % 4] if tier == "quick" and not boundary else None
             for kd in ([kind] if kind else KINDS):
                 sched = corpus.random_sched(rng)
                 reqs.append({"id": len(reqs), "to": to, "calls": [{"input": shared.hx(data), "from": frm, "mode": "reader", "sched": sched,
